@@ -32,7 +32,7 @@ POOLS = {
     },
     # dust grains in three charge states (electron capture, ion recombination on grains)
     "grain": {
-        "GRAIN0": ({"GRAIN": 1}, 0), "GRAIN-": ({"GRAIN": 1}, -1), "GRAIN+": ({"GRAIN": 1}, 1), "e-": ({}, -1), "H": ({"H": 1}, 0), "H+": ({"H": 1}, 1),
+        "GRAIN0": ({"GRAIN": 1}, 0), "GRAIN-": ({"GRAIN": 1}, -1), "GRAIN--": ({"GRAIN": 1}, -2), "GRAIN+": ({"GRAIN": 1}, 1), "e-": ({}, -1), "C-": ({"C": 1}, -1), "C--": ({"C": 1}, -2), "H": ({"H": 1}, 0), "H+": ({"H": 1}, 1),
         "C": ({"C": 1}, 0), "C+": ({"C": 1}, 1), "H2": ({"H": 2}, 0), "CH": ({"C": 1, "H": 1}, 0), "CH+": ({"C": 1, "H": 1}, 1),
     },
     # formulas that mention an element symbol in several places (composition computed by hand)
